@@ -1,5 +1,6 @@
 import LitexModel.DriverLib
 import LitexModel.Soc.Bus
+import LitexModel.Soc.BusRaw
 import LitexModel.Soc.Loc
 import LitexModel.Soc.Cm
 import LitexModel.Soc.CsrBanks
@@ -14,7 +15,13 @@ import LitexModel.Soc.CsrBanks
            M <name>                                                        add_master
            C <0|1>                                                         io_regions_check = b
       ->   <verdicts> # <fin> # <regions> # <io_regions> # <masters> # <slaves> # <ioCheck>
-           verdict = ok | rej:<Err>;  fin = ok | rej:<Err> (do_finalize);  region = name:origin:size:cached:linker:decode
+           verdict = ok | rej:<Err>;  fin = ok | p2p | rej:<Err> (do_finalize; p2p = InterconnectPointToPoint built);
+           region = name:origin:size:cached:linker:decode
+  call busraw <aw> <dw> ; <op> ; ...      the same calls on the NON-transactional object (`RawH`: what a refused
+      add_region leaves behind stays)  ->  <verdicts> # <fin> # <regions> # <io_regions> # <masters> # <slaves> # <ioCheck> # <stale names>
+  call sel <aw> <dw> ; <op> ; ... ; A <a> <a> ...     -> per slave (in slave order) `name:bits`, bits = one 0/1 per word
+      address: does the interconnect built by do_finalize select that slave (`BusH.selects`: every address for
+      point-to-point, `SoCRegion.decoder` otherwise); "-" when finalize fails or builds nothing
   call dec <aw> <dw> <origin> <size> <decode> <a> <a> ...     -> "u" (unaligned: SoCError) or one 0/1 per address
   call decall <aw> <dw> <origin> <size> <decode>              -> same for every word address 0 .. 2^(aw-shift)-1
   call loc csr <data_width> <address_width> <alignment> <paging> [<name>:<n> ...] ; <op> ; ...   (reserved_csrs)
@@ -66,10 +73,30 @@ def showRegion (p : Nat × Region) : String :=
 def callBus (aw dw : Nat) (ops : List (BusOp Nat)) : String :=
   let s0 : BusH Nat := { aw := aw, dw := dw }
   let s := s0.run ops
-  let fin := match s.finalize with | .ok _ => "ok" | .error e => "rej:" ++ errName e
+  let fin := match s.finalize with
+    | .ok _ => if s.buildsP2P then "p2p" else "ok"
+    | .error e => "rej:" ++ errName e
   " # ".intercalate [unwords ((s0.verdicts ops).map verdict), fin, unwords (s.regions.map showRegion),
     unwords (s.ioRegions.map showRegion), unwords (s.masters.map toString), unwords (s.slaves.map toString),
     sBool s.ioCheck]
+
+def callBusRaw (aw dw : Nat) (ops : List (BusOp Nat)) : String :=
+  let s0 : RawH Nat := { h := { aw := aw, dw := dw } }
+  let s := s0.run ops
+  let fin := match s.h.finalize with
+    | .ok _ => if s.h.buildsP2P then "p2p" else "ok"
+    | .error e => "rej:" ++ errName e
+  " # ".intercalate [unwords ((s0.verdicts ops).map verdict), fin, unwords (s.h.regions.map showRegion),
+    unwords (s.h.ioRegions.map showRegion), unwords (s.h.masters.map toString), unwords (s.h.slaves.map toString),
+    sBool s.h.ioCheck, unwords (s.stale.map toString)]
+
+def callSel (aw dw : Nat) (ops : List (BusOp Nat)) (as : List Nat) : String :=
+  let s := ({ aw := aw, dw := dw } : BusH Nat).run ops
+  match s.finalize with
+  | .error _ => "-"
+  | .ok _ =>
+    if s.masters.isEmpty || s.slaves.isEmpty then "-"
+    else unwords (s.slaveRegions.map fun p => s!"{p.1}:" ++ String.join (as.map fun a => sBool (s.selects p.2 a)))
 
 def decBits (aw dw : Nat) (r : Region) (as : List Nat) : String :=
   if !r.aligned then "u" else String.join (as.map fun a => sBool (decoderAccepts aw dw r a))
@@ -156,6 +183,16 @@ def call (args : List String) : Option String :=
   | "bus" :: aw :: dw :: rest => do
     let ops ← ((splitSemi rest).filter (· ≠ [])).mapM pBusOp
     some (callBus (← aw.toNat?) (← dw.toNat?) ops)
+  | "busraw" :: aw :: dw :: rest => do
+    let ops ← ((splitSemi rest).filter (· ≠ [])).mapM pBusOp
+    some (callBusRaw (← aw.toNat?) (← dw.toNat?) ops)
+  | "sel" :: aw :: dw :: rest => do
+    let parts := (splitSemi rest).filter (· ≠ [])
+    match parts.getLast? with
+    | some ("A" :: as) =>
+      let ops ← parts.dropLast.mapM pBusOp
+      some (callSel (← aw.toNat?) (← dw.toNat?) ops (← parseNats as))
+    | _ => none
   | "dec" :: aw :: dw :: o :: sz :: d :: as => do
     let r : Region := { origin := ← o.toNat?, size := ← sz.toNat?, decode := ← pBool d }
     some (decBits (← aw.toNat?) (← dw.toNat?) r (← parseNats as))
